@@ -40,6 +40,7 @@ type WFault struct {
 	RtFail     bool `json:"rtFail,omitempty"`
 	OutOfSync  bool `json:"outOfSync,omitempty"`
 	PostLost   bool `json:"postLost,omitempty"`
+	PushOk     bool `json:"pushOk,omitempty"` // with OutOfSync: the push of the raw configuration reaches the real sidecar and succeeds
 }
 
 func (f WFault) any() bool {
@@ -165,6 +166,7 @@ func (w *loopWorld) Shards() ([]*shard.Shard, error) {
 		idx := i
 		lr := w.rigs[i]
 		f := w.faultAt(i)
+		pushed := false
 		sd := shard.NewShard(fmt.Sprintf("shard-%d", i), fmt.Sprintf("http://s%d", i), !f.NotReady, quietLog())
 		sd.APIGet = func(url string, ret interface{}) error {
 			switch {
@@ -190,7 +192,7 @@ func (w *loopWorld) Shards() ([]*shard.Shard, error) {
 				if info.ConfigHash != w.cfgHash {
 					w.err = fmt.Errorf("sidecar config hash %q differs from the coordinator's %q", info.ConfigHash, w.cfgHash)
 				}
-				if f.OutOfSync {
+				if f.OutOfSync && !pushed {
 					info.ConfigHash = "stale"
 				}
 				if info.IdleStartAt != nil {
@@ -208,7 +210,31 @@ func (w *loopWorld) Shards() ([]*shard.Shard, error) {
 			switch {
 			case strings.HasSuffix(url, "/api/v1/status/config"):
 				w.obs.Reqs[idx] = append(w.obs.Reqs[idx], CReq{Kind: 2})
-				return fmt.Errorf("injected push error")
+				if !f.PushOk {
+					return fmt.Errorf("injected push error")
+				}
+				// the push reaches the real sidecar service, which reloads the raw configuration
+				data, _ := json.Marshal(req)
+				code := 0
+				w.on(lr, func() {
+					path := "/api/v1/status/config"
+					for hop := 0; hop < 3; hop++ {
+						rec := httptest.NewRecorder()
+						lr.rig.svc.ServeHTTP(rec, httptest.NewRequest("POST", path, bytes.NewReader(data)))
+						code = rec.Code
+						if (code == 307 || code == 308) && rec.Header().Get("Location") != "" {
+							path = rec.Header().Get("Location")
+							continue
+						}
+						break
+					}
+				})
+				if code != 200 {
+					return fmt.Errorf("config push answered with status %d", code)
+				}
+				_ = lr.rig.installTransports()
+				pushed = true
+				return nil
 			case strings.HasSuffix(url, "/api/v1/shard/targets/"):
 				data, _ := json.Marshal(req)
 				r := shard.UpdateTargetsRequest{}
@@ -582,6 +608,7 @@ func runLoopCase(c *WCase, work string) *loopRun {
 				o.bool(f.RtFail)
 				o.bool(f.OutOfSync)
 				o.bool(f.PostLost)
+				o.bool(f.PushOk)
 			}
 			o.bool(scaleFail)
 			encCObs(o, &res)
@@ -608,6 +635,11 @@ func runLoopCase(c *WCase, work string) *loopRun {
 		run.ZeroUnplaced = append(run.ZeroUnplaced, zero)
 		if res.Crashed {
 			run.Tags["crash"] = true
+		}
+		for _, f := range faults {
+			if f.OutOfSync && f.PushOk {
+				run.Tags["configPushAccepted"] = true
+			}
 		}
 		return okk
 	}
@@ -790,6 +822,7 @@ func genLoopCase(r *Rng, faulty bool, tail int) *WCase {
 						f.RtFail = true
 					case 3:
 						f.OutOfSync = true
+						f.PushOk = r.Chance(50)
 					default:
 						f.PostLost = true
 					}
